@@ -1,12 +1,465 @@
+import GrafeoModel.Model.Push
+import GrafeoModel.Model.Exec
+import GrafeoModel.Generated.Constants
 import GrafeoModel.Driver.Proto
 
-/-! Stream `push` (stub: filled in by the owner of this stream). Stateless lines; if you need
-per-case state, keep it inside one op line. -/
+/-! Stream `push` (C17): push pipeline, pull operators, parallel pipeline, spilling.
+Stateless lines; see harness/src/push.rs for the line formats. -/
 namespace Grafeo.DriverPush
-open Grafeo.Proto
+open Grafeo.Proto Grafeo.Push
+
+/-! ### tokens, rows, tables -/
+
+def hex16 (n : Nat) : String :=
+  String.ofList ((List.range 16).reverse.map (fun i => hexDigit (n / 16 ^ i % 16)))
+
+def parseHexNat (s : String) : Option Nat :=
+  s.toList.foldlM (fun acc c => do pure (acc * 16 + (← hexVal c))) 0
+
+def parseTok (s : String) : Option Val :=
+  match s.toList with
+  | ['N'] => some .null
+  | ['B', '0'] => some (.bool false)
+  | ['B', '1'] => some (.bool true)
+  | 'I' :: r => (String.ofList r).toInt?.map .int
+  | 'F' :: r => (parseHexNat (String.ofList r)).map .flt
+  | 'S' :: r => (parseHex (if r.isEmpty then "-" else String.ofList r)).map .str
+  | _ => none
+
+def showTok : Val → String
+  | .null => "N"
+  | .bool b => if b then "B1" else "B0"
+  | .int i => s!"I{i}"
+  | .flt b => "F" ++ hex16 b
+  | .str s => "S" ++ hexBytes s
+
+def parseRow (s : String) : Option Row := (s.splitOn ",").mapM parseTok
+def showRow (r : Row) : String := joinWith "," (r.map showTok)
+
+def genRows (n mult md : Nat) : List Row :=
+  (List.range n).map (fun i => [.int ((i * mult % md : Nat) : Int), .int (i : Int)])
+
+def parseTable (s : String) : Option (List Row) :=
+  if s == "-" then some []
+  else if s.startsWith "gen:" then
+    match (s.drop 4).toString.splitOn ":" with
+    | [n, m, d] => do pure (genRows (← n.toNat?) (← m.toNat?) (← d.toNat?))
+    | _ => none
+  else (s.splitOn ";").mapM parseRow
+
+def showRows (rs : List Row) : String := if rs.isEmpty then "norows" else joinWith ";" (rs.map showRow)
+
+def insertStr (x : String) : List String → List String
+  | [] => [x]
+  | y :: ys => if x ≤ y then x :: y :: ys else y :: insertStr x ys
+
+def sortStrs (l : List String) : List String := (l.toArray.qsort (· < ·)).toList
+
+def showSorted (rs : List Row) : String :=
+  if rs.isEmpty then "norows" else joinWith ";" (sortStrs (rs.map showRow))
+
+def parseSizes (s : String) : Option (List Nat) :=
+  let t := if s.startsWith "c:" then (s.drop 2).toString else s
+  parseNatList t
+
+/-- `split_chunks` of the harness: the listed sizes, then whatever is left as one more chunk -/
+def splitChunks : List Nat → List Row → List (List Row)
+  | [], rows => if rows.isEmpty then [] else [rows]
+  | n :: ns, rows => rows.take n :: splitChunks ns (rows.drop n)
+
+/-! ### operator items -/
+
+def parseCmp : String → Option Cmp
+  | "eq" => some .eq | "ne" => some .ne | "lt" => some .lt | "le" => some .le | "gt" => some .gt | "ge" => some .ge
+  | _ => none
+
+def parseArith : String → Option Arith
+  | "add" => some .add | "sub" => some .sub | "mul" => some .mul | "div" => some .div | "mod" => some .mod
+  | _ => none
+
+def parseLeaf (s : String) : Option Ex :=
+  match s.toList with
+  | 'c' :: r => (String.ofList r).toNat?.map .col
+  | 'k' :: r => (parseTok (String.ofList r)).map .const
+  | _ => none
+
+/-- `c<k>` | `k<tok>` | `b<op>.<leaf>.<leaf>` (the stream nests no deeper) -/
+def parseEx (s : String) : Option Ex :=
+  match s.toList with
+  | 'b' :: r =>
+    match (String.ofList r).splitOn "." with
+    | [op, l, rr] => do pure (.bin (← parseArith op) (← parseLeaf l) (← parseLeaf rr))
+    | _ => none
+  | _ => parseLeaf s
+
+def parseCols (s : String) : Option (List Nat) :=
+  if s == "-" || s == "" then some [] else (s.splitOn ".").mapM (·.toNat?)
+
+def parseKey (s : String) : Option SortKey :=
+  let cs := s.toList
+  let n := cs.length
+  if n < 3 then none
+  else do
+    let col ← (String.ofList (cs.take (n - 2))).toNat?
+    pure ⟨col, cs[n - 2]? == some 'a', cs[n - 1]? == some 'f'⟩
+
+def parseKeys (s : String) : Option (List SortKey) := (s.splitOn ".").mapM parseKey
+
+def parseAgg (s : String) : Option AggE :=
+  match s.toList with
+  | ['c', 's'] => some ⟨.countStar, 0⟩
+  | 'm' :: 'n' :: r => (String.ofList r).toNat?.map (⟨.min, ·⟩)
+  | 'm' :: 'x' :: r => (String.ofList r).toNat?.map (⟨.max, ·⟩)
+  | 'c' :: r => (String.ofList r).toNat?.map (⟨.count, ·⟩)
+  | 's' :: r => (String.ofList r).toNat?.map (⟨.sum, ·⟩)
+  | _ => none
+
+def parseOp (s : String) : Option OpD :=
+  match s.splitOn ":" with
+  | ["f", c, o, t] => do pure (.filter (← c.toNat?) (← parseCmp o) (← parseTok t))
+  | ["p", es] => do pure (.project (← (es.splitOn ",").mapM parseEx))
+  | ["l", n] => do pure (.limit (← n.toNat?))
+  | ["s", n] => do pure (.skip (← n.toNat?))
+  | ["sl", s, n] => do pure (.skipLimit (← s.toNat?) (← n.toNat?))
+  | ["d"] => some (.distinct none)
+  | ["d", cs] => do pure (.distinct (some (← parseCols cs)))
+  | ["dm"] => some (.distinctMat none)
+  | ["dm", cs] => do pure (.distinctMat (some (← parseCols cs)))
+  | ["o", ks] => do pure (.sort (← parseKeys ks))
+  | ["g", gs, as] => do
+    let aggs ← ((as.splitOn ".").filter (fun a => a != "" && a != "-")).mapM parseAgg
+    pure (.agg (← parseCols gs) aggs)
+  | _ => none
+
+def lastGroupedAgg (ds : List OpD) : Bool :=
+  match ds.getLast? with
+  | some (.agg g _) => !g.isEmpty
+  | _ => false
+
+def showOut (ds : List OpD) (rs : List Row) : String := if lastGroupedAgg ds then showSorted rs else showRows rs
+
+def mk (m s sig : String) : Proto.Out := { model := m, spec := s, sig := if m == s then "-" else sig }
+
+/-! ### chain -/
+
+def asIsOps (ds : List OpD) : List (Op Row K GState) := ds.map (OpD.toPush Quirks.asIs)
+def specOps (ds : List OpD) : List (Op Row K GState) := ds.map OpD.toSpec
+
+/-- the pipeline without its collector-dropping flaw, under a given set of operator quirks -/
+def staged (q : Quirks) (ds : List OpD) (rows : List Row) : List Row :=
+  semPipe (initStages (ds.map (OpD.toPush q))) rows
+
+/-- names of the operator-level deviations that change the result of this chain -/
+def quirkSigs (ds : List OpD) (rows : List Row) : List String :=
+  let base := showOut ds (staged Quirks.asIs ds rows)
+  let test (q : Quirks) (name : String) : List String :=
+    if showOut ds (staged q ds rows) != base then [name] else []
+  test { Quirks.asIs with hashKeys := false } "push-hash-key-collision"
+    ++ test { Quirks.asIs with pushPred := false } "push-filter-comparison-semantics"
+    ++ test { Quirks.asIs with floatSum := false } "push-sum-float-or-null"
+
+def chainSig (ds : List OpD) (rows : List Row) (model : String) : String :=
+  let noDrop := showOut ds (staged Quirks.asIs ds rows)
+  let l := (if model == "hang" then ["limit0-chunk-size-zero-hang"]
+            else if model != noDrop then ["push-limit-not-last-drops-rows"] else [])
+           ++ quirkSigs ds rows
+  if l.isEmpty then "unexplained" else joinWith "+" l
+
+def handleChain (src table : String) (opToks : List String) : Option Proto.Out := do
+  let rows ← parseTable table
+  let ds ← opToks.mapM parseOp
+  let ops := asIsOps ds
+  let model ←
+    if src == "v" then
+      pure (match runVector ops rows with
+        | none => "hang"
+        | some out => showOut ds out)
+    else do
+      let sizes ← parseSizes src
+      pure (showOut ds (run ops (splitChunks sizes rows)))
+  let spec := showOut ds (specChain (specOps ds) rows)
+  pure (mk model spec (chainSig ds rows model))
+
+/-! ### pull -/
+
+def handlePull (src table : String) (opToks : List String) : Option Proto.Out := do
+  let rows ← parseTable table
+  let ds ← opToks.mapM parseOp
+  let sizes ← parseSizes src
+  let out := (pullChain Generated.chunkCapacity (ds.map OpD.toPull) (splitChunks sizes rows)).flatten
+  let model := showOut ds out
+  let spec := showOut ds (specChain (specOps ds) rows)
+  let hasAgg := ds.any (fun d => match d with | .agg _ _ => true | _ => false)
+  pure (mk model spec (if hasAgg then "pull-group-key-float-bits" else "pull-deviation"))
+
+/-! ### par -/
+
+def morselSize : String → Option Nat
+  | "pN" => some 65536 | "pM" => some 32768 | "pH" => some 16384 | "pC" => some 1024
+  | s => s.toNat?
+
+/-- sequence with every maximal block of rows whose sort-key columns print alike in textual order -/
+def canonTies (keys : List SortKey) (rows : List Row) : List Row :=
+  let keytxt (r : Row) : String := joinWith "," (keys.map (fun k => match r[k.col]? with | some v => showTok v | none => "?"))
+  let rec go (fuel : Nat) (rows : List Row) : List Row :=
+    match fuel, rows with
+    | 0, _ => []
+    | _, [] => []
+    | fuel + 1, r :: rest =>
+      let block := r :: rest.takeWhile (fun x => keytxt x == keytxt r)
+      let others := rest.dropWhile (fun x => keytxt x == keytxt r)
+      let sorted := (block.toArray.qsort (fun a b => showRow a < showRow b)).toList
+      sorted ++ go fuel others
+  go rows.length rows
+
+def parBody (q : Quirks) (ds : List OpD) (rows : List Row) : String :=
+  match ds.getLast? with
+  | some (.sort keys) =>
+    let pre := staged q ds.dropLast rows
+    showRows (canonTies keys (pre.mergeSort (rowLe sortCmpVals keys)))
+  | some (.distinct _) => showSorted (dedupFirst (rowKey q none) (staged q ds.dropLast rows))
+  | some (.distinctMat _) => showSorted (dedupFirst (rowKey q none) (staged q ds.dropLast rows))
+  | _ => showSorted (staged q ds rows)
+
+def handlePar (morsel table : String) (opToks : List String) : Option Proto.Out := do
+  let rows ← parseTable table
+  let ds ← opToks.mapM parseOp
+  let size ← morselSize morsel
+  let nm := (Exec.generateMorsels rows.length size).length
+  let head := s!"m{nm}r{if nm == 0 then 0 else rows.length}|"
+  let body (q : Quirks) := if nm == 0 then "norows" else parBody q ds rows
+  let sigs := quirkSigs ds rows
+  pure (mk (head ++ body Quirks.asIs) (head ++ body Quirks.none)
+    (if sigs.isEmpty then "parallel-deviation" else joinWith "+" sigs))
+
+/-! ### external sort -/
+
+def isSortedBy (le : Row → Row → Bool) : List Row → Bool
+  | [] => true
+  | [_] => true
+  | a :: b :: rest => le a b && isSortedBy le (b :: rest)
+
+def xsortSig (le : Row → Row → Bool) (rowsM rowsS : List Row) (active : Nat) : String :=
+  let a := if rowsM == rowsS then []
+    else if isSortedBy le rowsM && sortStrs (rowsM.map showRow) == sortStrs (rowsS.map showRow)
+      then ["spill-sort-tie-order"] else ["spill-sort-wrong"]
+  let b := if active != 0 then ["spill-manager-active-files-stale"] else []
+  if (a ++ b).isEmpty then "unexplained" else joinWith "+" (a ++ b)
+
+def handleXsort (thr src table keys : String) : Option Proto.Out := do
+  let rows ← parseTable table
+  let sizes ← parseSizes src
+  let ks ← parseKeys keys
+  let t ← thr.toNat?
+  let cmp := cmpRows sortCmpVals ks
+  let le := rowLe sortCmpVals ks
+  let chunks := splitChunks sizes rows
+  let out := xsortRun cmp t chunks
+  let nruns := (xsortState le t chunks).2.length
+  let sp := rows.mergeSort le
+  pure (mk s!"{showRows out}|runs{nruns}|left0,0|active{nruns}" s!"{showRows sp}|runs{nruns}|left0,0|active0"
+    (xsortSig le out sp nruns))
+
+def handleXruns (keys mem : String) (runToks : List String) : Option Proto.Out := do
+  let ks ← parseKeys keys
+  let memRows ← parseTable mem
+  let runs ← runToks.mapM parseTable
+  let disk := runs.filter (fun r => !r.isEmpty)
+  let cmp := cmpRows sortCmpVals ks
+  let le := rowLe sortCmpVals ks
+  let out := mergeAll cmp disk memRows
+  let sp := (disk.flatten ++ memRows).mergeSort le
+  let n := disk.length
+  pure (mk s!"{showRows out}|runs{n}|left0,0|active{n}" s!"{showRows sp}|runs{n}|left0,0|active0"
+    (xsortSig le out sp n))
+
+/-! ### spillable aggregation -/
+
+def distinctKeys (gcols : List Nat) (rows : List Row) : Nat :=
+  (dedupFirst (idKey (some gcols)) rows).length
+
+/-- does some push end with at least `threshold` groups (then the largest partition is spilled)? -/
+def xaggSpills (gcols : List Nat) (threshold : Nat) : List Row → List (List Row) → Bool
+  | _, [] => false
+  | seenRows, c :: cs =>
+    if c.isEmpty then xaggSpills gcols threshold seenRows cs
+    else if distinctKeys gcols (seenRows ++ c) ≥ threshold then true
+    else xaggSpills gcols threshold (seenRows ++ c) cs
+
+def handleXagg (thr src table op : String) : Option Proto.Out := do
+  let rows ← parseTable table
+  let sizes ← parseSizes src
+  let t ← thr.toNat?
+  let d ← parseOp op
+  match d with
+  | .agg gcols _ =>
+    -- the partitioned state is keyed by the serialized key values: value identity
+    let q : Quirks := { Quirks.asIs with hashKeys := false }
+    let out := staged q [d] rows
+    let sp := staged Quirks.none [d] rows
+    let spilled := if gcols.isEmpty then false else xaggSpills gcols t [] (splitChunks sizes rows)
+    let tail := s!"|spilled{if spilled then 1 else 0}|left0,0"
+    pure (mk (showSorted out ++ tail) (showSorted sp ++ tail) "push-sum-float-or-null")
+  | _ => none
+
+/-! ### PartitionedState -/
+
+def showPairs (l : List (Row × Int)) : String :=
+  if l.isEmpty then "none" else joinWith ";" (sortStrs (l.map (fun (k, v) => s!"{showRow k}={v}")))
+
+/-- one script command; `single` = one partition (files are tracked); `tidy` = specification
+(cleanup and drop delete their files) -/
+def partStep (single tidy : Bool) (s : PartSt) (cmd : String) : Option (PartSt × String) :=
+  let spillRes (r : PartSt × Bool) : PartSt × String :=
+    if single then (r.1, if r.2 then "w" else "0") else (s, "x")
+  match cmd.splitOn ":" with
+  | ["i", k, v] => do
+    let k ← parseRow k
+    let v ← v.toInt?
+    let l := s.load
+    pure ({ l with data := assocSet k v l.data }, match assocGet k l.data with | some o => s!"old{o}" | none => "new")
+  | ["a", k, v] => do
+    let k ← parseRow k
+    let v ← v.toInt?
+    let l := s.load
+    let nv := (assocGet k l.data).getD 0 + v
+    pure ({ l with data := assocSet k nv l.data }, toString nv)
+  | ["g", k] => do
+    let k ← parseRow k
+    let l := s.load
+    pure (l, match assocGet k l.data with | some o => toString o | none => "none")
+  | ["sp", _] => some (spillRes s.spill)
+  | ["sl"] => some (spillRes s.spill)
+  | ["su"] => some (spillRes s.spill)
+  | ["it"] => let l := s.load; some (l, showPairs l.data)
+  | ["dr"] => let r := s.drain; some (r.1, showPairs r.2)
+  | ["cl"] => some (if tidy then { s.cleanup with leaked := s.leaked } else s.cleanup, "ok")
+  | ["sz"] => some (s, toString s.data.length)
+  | ["fs"] => some (s, if single then toString s.filesOnDisk else "x")
+  | _ => none
+
+def partRun (single tidy : Bool) (script : List String) : Option String := do
+  let (s, outs) ← script.foldlM (fun (acc : PartSt × List String) cmd => do
+    let (s', o) ← partStep single tidy acc.1 cmd
+    pure (s', acc.2 ++ [o])) ({}, [])
+  let left := if tidy || !single then 0 else s.filesOnDisk
+  pure s!"{joinWith " " outs}|left{left},0|bytes0"
+
+def handlePart (n : String) (script : List String) : Option Proto.Out := do
+  let n ← n.toNat?
+  let m ← partRun (n == 1) false script
+  let sp ← partRun (n == 1) true script
+  pure (mk m sp "partitioned-state-leaves-spill-files")
+
+/-! ### one operator on a chunk with a selection vector -/
+
+/-- physical positions (from the selection, in order) of the rows that are new under `key` -/
+def newPositions (key : Row → List (List Nat)) (phys : Array Row) : List (List (List Nat)) → List Nat → List Nat
+  | _, [] => []
+  | seen, i :: is =>
+    match phys[i]? with
+    | none => newPositions key phys seen is
+    | some r => if seen.contains (key r) then newPositions key phys seen is
+                else i :: newPositions key phys (key r :: seen) is
+
+def handleSelop (op phys sel : String) : Option Proto.Out := do
+  let d ← parseOp op
+  let rows ← parseTable phys
+  let selIdx ← parseNatList sel
+  let arr := rows.toArray
+  let s := some selIdx
+  let selected := selRows arr s
+  let len := selLen arr s
+  let flag (b : Bool) := if b then "go" else "stop"
+  -- specification: the operator applied to the selected rows
+  let specOp := d.toPush Quirks.asIs
+  let sr := specOp.push St.empty selected
+  let spec := s!"{showRows (sr.2.1 ++ specOp.finalize sr.1)}|{flag sr.2.2}"
+  let model :=
+    match d with
+    | .filter col c k => s!"{showRows (if len == 0 then [] else filterSel (pushPred col c k) arr s)}|go"
+    | .limit n =>
+      if n == 0 then "norows|stop"
+      else if len ≤ n then s!"{showRows selected}|{flag (decide (len < n))}"
+      else match limitSel n arr s with
+        | some r => s!"{showRows r}|stop"
+        | none => "panic"
+    | .skip k =>
+      if k == 0 then s!"{showRows selected}|go"
+      else if len ≤ k then "norows|go"
+      else s!"{showRows (skipSel k arr s)}|go"
+    | .distinct cols =>
+      if len == 0 then "norows|go"
+      else s!"{showRows (distinctSel (newPositions (hashKey cols) arr [] selIdx) arr s)}|go"
+    | _ => spec
+  pure (mk model spec "selection-vector-physical-index")
+
+/-! ### one big chunk: 16-bit selection indices -/
+
+def digest (rows : List Row) : String :=
+  let n := rows.length
+  let h := rows.foldl (fun (h : Nat) r =>
+    let h1 := (showRow r).toUTF8.foldl (fun (h : Nat) b => ((h ^^^ b.toNat) * 1099511628211 % 2 ^ 64) % 1000000007) h
+    ((h1 ^^^ 59) * 1099511628211 % 2 ^ 64) % 1000000007) 1469598103934665603
+  let head := rows.take 3
+  let tail := rows.drop (max (n - 3) (min 3 n))
+  s!"n{n}|{joinWith ";" (head.map showRow)}|{joinWith ";" (tail.map showRow)}|h{h}"
+
+/-- an operator applied to the ONE chunk that reaches it, selections built as coded;
+`none` = panic. (Rows of the generated table are pairwise different.) -/
+def bigStep (d : OpD) (rows : List Row) : Option (List Row) :=
+  let arr := rows.toArray
+  let len := rows.length
+  match d with
+  | .filter col c k =>
+    if len == 0 then some []
+    else some (chunkFilter arr none (fromPredicate len (fun i => match arr[i]? with | some r => pushPred col c k r | none => false)))
+  | .limit n => if len ≤ n then some rows else limitSel n arr none
+  | .skip k => if k == 0 then some rows else if len ≤ k then some [] else some (skipSel k arr none)
+  | .distinct _ => if len == 0 then some [] else some (chunkFilter arr none (fromPredicate len (fun _ => true)))
+  | d => let o := d.toPush Quirks.asIs; some ((o.push St.empty rows).2.1 ++ o.finalize (o.push St.empty rows).1)
+
+def handleBig (n mult : String) (opToks : List String) : Option Proto.Out := do
+  let n ← n.toNat?
+  let m ← mult.toNat?
+  let ds ← opToks.mapM parseOp
+  let rows := genRows n m n
+  let model := match ds.foldlM (fun r d => bigStep d r) rows with
+    | some r => digest r
+    | none => "panic"
+  let spec := digest (specChain (asIsOps ds) rows)
+  pure (mk model spec (if model == "panic" then "limit-selection-assert-panic" else "selection-u16-index-wrap"))
+
+/-! ### BinaryExpr -/
+
+def handleExpr (op a b : String) : Option Proto.Out := do
+  let o ← parseArith op
+  let x ← parseTok a
+  let y ← parseTok b
+  let model := match x, y with
+    | .int l, .int r => (match arithInt o l r with | some v => showTok v | none => "panic")
+    | _, _ => "N"
+  -- specification: like + - *, division wraps instead of aborting the process
+  let spec := match x, y with
+    | .int l, .int r =>
+      (match arithInt o l r with
+       | some v => showTok v
+       | none => if o == .div then showTok (.int i64Min) else showTok (.int 0))
+    | _, _ => "N"
+  pure (mk model spec "project-div-overflow-panic")
 
 def handle (args : List String) : Option Proto.Out :=
   match args with
+  | "chain" :: src :: table :: ops => handleChain src table ops
+  | "pull" :: src :: table :: ops => handlePull src table ops
+  | "par" :: _w :: m :: _c :: _sk :: table :: ops => handlePar m table ops
+  | ["xsort", t, src, table, keys] => handleXsort t src table keys
+  | "xruns" :: keys :: mem :: runs => handleXruns keys mem runs
+  | ["xagg", t, src, table, op] => handleXagg t src table op
+  | "part" :: n :: script => handlePart n script
+  | ["selop", op, phys, sel] => handleSelop op phys sel
+  | "big" :: n :: m :: ops => handleBig n m ops
+  | ["expr", op, a, b] => handleExpr op a b
   | _ => none
 
 end Grafeo.DriverPush
